@@ -34,7 +34,8 @@ def gen_case(rng, frontend=None):
         layout = dict(units)[uid] if uid in dict(units) else units[0][1]
         r = execlib.gen_req(rng, layout, [], 0.15)
         if rng.random() < 0.05:
-            r = {'t': 'illegalFunction', 'fc': rng.choice(execlib.UNASSIGNED_FC[1:]), 'data': [0, 1, 0, 1]}
+            r = {'t': 'illegalFunction', 'fc': rng.choice(execlib.UNASSIGNED_FC[1:] + [0x81, 0x83, 0x90, 0xFF]),
+                 'data': rng.choice([[0, 1, 0, 1], [2], [1], [0x0B], []])}
         if rng.random() < 0.12:
             r = {'t': 'raw', 'pdu': rng.choice(serverlib.OTHER_PDUS)}
         tid = rng.choice([0, 1, 0xFFFF, rng.randrange(65536)])
